@@ -329,13 +329,16 @@ pub fn continue_point(dir: &Path, log: &BuiltMulti, p: &MPoint, st: &mut Stats) 
         }
     }
     let active = after1.last_seg_id().unwrap_or(1);
+    // Set when the store hands the continuing writer an epoch whose first LSN is not the LSN right
+    // after the recovered log (the writer appends there all the same, as the host does).
+    let skipped = std::cell::Cell::new(None::<(u64, u64)>);
     let appended = mc::catch(|| -> Result<Vec<WalCommittedTransaction>, String> {
         let mut store = FilesystemWalStore::open(dir, WalSegmentId::from_raw(active)).map_err(|e| format!("open:{}", ek(&e)))?;
         let min = last_lsn.map_or(Lsn::from_raw(0), |l| Lsn::from_raw(l.as_u64() + 1));
         let epoch = store.acquire_fresh_writer_epoch(min).map_err(|e| format!("acquire:{}", ek(&e)))?;
         let mut chain = want.iter().fold(Chain::genesis(), |c, t| c.after(t));
         if k > 0 && epoch.started_at_lsn != chain.next_lsn {
-            return Err(format!("epoch-start-lsn:{}!={}", epoch.started_at_lsn.as_u64(), chain.next_lsn.as_u64()));
+            skipped.set(Some((epoch.started_at_lsn.as_u64(), chain.next_lsn.as_u64())));
         }
         chain.next_lsn = epoch.started_at_lsn;
         let t1 = build_tx_on(TxKind::Submit, epoch.epoch_id, &chain, &format!("appended:{}:{k}:a", log.word()), WalSegmentId::from_raw(active))?;
@@ -356,6 +359,12 @@ pub fn continue_point(dir: &Path, log: &BuiltMulti, p: &MPoint, st: &mut Stats) 
             for round in 0..2 {
                 match mc::catch(|| recover_filesystem_store(dir, RecoveryAccessMode::ReadOnly)) {
                     Err(pm) => cx.fail(st, "after-append", "panic".into(), json!(pm)),
+                    Ok(Err(e)) if skipped.get().is_some() && format!("{e:?}").contains("LsnContinuityMismatch") => {
+                        st.outcome("mseg.continued:fresh-epoch-skipped-an-lsn:log-unrecoverable");
+                        st.viol(crate::refence::SIG_STORE.to_string(), json!({"case": cx.case, "acknowledged_before_crash": k,
+                            "epoch_start_lsn_vs_log_end_plus_1": skipped.get(), "recovery_error": format!("{e:?}")}));
+                        return;
+                    }
                     Ok(Err(e)) => cx.fail(st, "after-append", format!("err:{}", ek(&e)), json!(format!("{e:?}"))),
                     Ok(Ok(rep)) => {
                         if let Err(why) = same_history(&rep, &want2) {
